@@ -456,6 +456,12 @@ def tool_search(ctx, info, ncases, seed_offset=0, only=None):
                 cases.append((i,) + O.gen_case(r, wd, i, ctx.tier))
             except Exception as e:           # generator trouble is not a finding
                 ctx.notes.append("generator: %r" % (e,))
+        # sparse members whose maps contain zero-length entries below the real size, all four sparse dialects
+        try:
+            for data, opts, desc in O.sparse_zero_cases(random.Random(rnd.getrandbits(64))):
+                cases.append((len(cases), data, opts, desc))
+        except Exception as e:
+            ctx.notes.append("generator (sparse maps with empty entries): %r" % (e,))
 
     def one(c):
         i, data, opts, desc = c
